@@ -18,8 +18,8 @@ RULE = ("E1 hill climbing: every multiset of <=k rows over 3 binary columns (+ t
         "callable weight function x every root: maximum-weight spanning tree (brute force over all 16 trees) directed away from "
         "the root; TAN for every class node; real mutual information on data with strictly positive pairwise MI. "
         "non-trivial = distinct (data, configuration) whose result differs from the start graph; weight matrices with ties")
-BOUNDS = {"quick": "HC: multisets of <=3 rows (164) + 16 truth-table sets, 26 configurations each; exhaustive: 60 data sets x 2 scores; tree: 729 matrices x 4 roots + TAN",
-          "thorough": "HC: multisets of <=4 rows (494), pairs of deviations; exhaustive on 4 columns for 6 data sets"}
+BOUNDS = {"quick": "HC: multisets of <=3 rows (164) + 16 truth-table sets, 26 configurations each; exhaustive: 60 data sets x 2 scores; tree: 729 matrices x 4 roots + TAN; HC on 4 columns from the 24 labelings of path+shortcut x 6 data sets x 3 scores; named weight functions on 108 data sets (chow-liu x 4 roots, TAN x 4 classes)",
+          "thorough": "HC: multisets of <=4 rows (494), pairs of deviations; exhaustive on 4 columns for 6 data sets; HC from every labelled 4-node DAG (543) x 6 data sets x {k2,bic}"}
 EXHAUSTIVE = {"quick": True, "thorough": True}
 ASSUMPTIONS = ["local optimality is judged with the library's own (uncached) local scores; their correctness is property C10",
                "start graphs satisfy the in-degree bound and contain no black-listed edge"]
@@ -85,6 +85,16 @@ def groups(tier, seed):
     for i in range(0, 729, 27):
         out.append({"part": "tree", "lo": i, "hi": i + 27})
     out.append({"part": "tree-mi"})
+    for i in range(0, 24, 2):
+        out.append({"part": "hc4", "perms": [i, i + 1]})
+    fam = list(named_family())
+    for i in range(0, len(fam), 9):
+        out.append({"part": "tree-named", "lo": i, "hi": min(i + 9, len(fam))})
+    if tier == "thorough":
+        # every labelled 4-node DAG as the start graph
+        n4 = len(all_dags(4))
+        for i in range(0, n4, 8):
+            out.append({"part": "hc4all", "lo": i, "hi": min(i + 8, n4)})
     return out
 
 
@@ -106,6 +116,21 @@ def run_group(g, tier):
     elif g["part"] == "tree":
         for code in range(g["lo"], g["hi"]):
             _tree(st, code)
+    elif g["part"] == "hc4":
+        for pi in g["perms"]:
+            for di in range(len(HC4_DATA)):
+                for sc in HC4_SCORES:
+                    _hc4(st, pi, di, sc)
+    elif g["part"] == "hc4all":
+        dags = all_dags(4)
+        for i in range(g["lo"], g["hi"]):
+            for di in range(len(HC4_DATA)):
+                for sc in ("k2", "bic"):
+                    _hc4(st, None, di, sc, start=[list(e) for e in dags[i]], idx=i)
+    elif g["part"] == "tree-named":
+        fam = list(named_family())
+        for i in range(g["lo"], g["hi"]):
+            _tree_named(st, fam[i][0], fam[i][1])
     else:
         _tree_mi(st)
     return st
@@ -123,6 +148,13 @@ def replay(case):
         _ex(st, [rows[i] for i in case["set"]], {"part": "ex", "set": case["set"]})
     elif case["part"] == "tree":
         _tree(st, case["code"])
+    elif case["part"] == "hc4":
+        _hc4(st, case["perm"], case["data"], case["cfg"]["scoring"], start=case["cfg"]["start"] if case["perm"] is None else None, idx=case.get("idx"))
+    elif case["part"] == "tree-named":
+        fam = dict((tuple(k), r) for k, r in named_family())
+        _tree_named(st, case["key"], fam[tuple(case["key"])])
+        return [v for v in st.violations if v["site"] == case["site"] and v["case"].get("fn") == case.get("fn") and v["case"].get("root") == case.get("root")
+                and v["case"].get("class") == case.get("class")][:5]
     else:
         _tree_mi(st)
     return st.violations[:5]
@@ -134,7 +166,7 @@ def mk_scorer(name, df):
     return {"k2": K2Score, "bdeu": BDeuScore, "bds": BDsScore, "bic": BicScore, "aic": AICScore}[name](df)
 
 
-def _hc(st, data, cfg, base):
+def _hc(st, data, cfg, base, COLS=COLS):
     import networkx as nx
     import pandas as pd
 
@@ -192,7 +224,7 @@ def _hc(st, data, cfg, base):
     sc = mk_scorer(cfg["scoring"], df)
 
     def total(edges):
-        return sum(sc.local_score(v, [a for a, b in sorted(edges) if b == v]) for v in COLS) + _prior(sc, edges)
+        return sum(sc.local_score(v, [a for a, b in sorted(edges) if b == v]) for v in COLS) + _prior(sc, edges, COLS)
     s_res, s_start = total(E), total(S0)
     st.compared += 1
     if s_res < s_start - 1e-9:
@@ -236,7 +268,7 @@ def _hc(st, data, cfg, base):
         st.sample({"data": data, "cfg": cfg, "result": sorted(E)})
 
 
-def _prior(sc, edges):
+def _prior(sc, edges, COLS=COLS):
     from pgmpy.base import DAG
 
     d = DAG()
@@ -425,6 +457,132 @@ def _tree_bad(E, n, root, W, best, nodes):
     if w != best:
         return f"tree weight {w} < maximum {best}"
     return None
+
+
+# ---- four columns: start graphs in which reversing X->Y would close a cycle through a path of three edges
+COLS4 = ["W", "X", "Y", "Z"]
+HC4_SCORES = ["k2", "bic", "bdeu"]
+
+
+def _hc4_data():
+    out = []
+    base = [(x, a, b, x) for x in (0, 1) for a in (0, 1) for b in (0, 1)]          # first == last, middle columns free
+    out.append(base * 2)
+    out.append(base * 2 + [(0, 0, 0, 1), (1, 1, 1, 0)])
+    out.append(base * 3 + [(0, 1, 0, 1)])
+    chain = [(x, x, x, x) for x in (0, 1)] * 4 + [(0, 0, 1, 1), (0, 1, 1, 1), (1, 1, 0, 0), (1, 0, 0, 0)]
+    out.append(chain)
+    out.append([(x, a, a ^ x, x) for x in (0, 1) for a in (0, 1)] * 3 + [(0, 1, 0, 1), (1, 0, 0, 0)])
+    out.append([(x, a, b, x & a) for x in (0, 1) for a in (0, 1) for b in (0, 1)] * 2 + [(1, 1, 0, 0)])
+    return out
+
+
+HC4_DATA = _hc4_data()
+
+
+def _hc4(st, pi, di, scoring, start=None, idx=None):
+    """start graph p0->p1->p2->p3 plus the shortcut p0->p3 for every labelling p of the four columns (or the given start graph)"""
+    if start is None:
+        p = list(permutations(range(4)))[pi]
+        start = [[p[0], p[1]], [p[1], p[2]], [p[2], p[3]], [p[0], p[3]]]
+    for tabu in (0, 100) if pi is not None else (0,):
+        cfg = {"scoring": scoring, "start": start, "fixed": [], "black": None, "white": None, "indeg": None, "tabu": tabu, "eps": 1e-4, "cache": True}
+        _hc(st, HC4_DATA[di], cfg, {"part": "hc4", "perm": pi, "data": di, "idx": idx}, COLS4)
+
+
+def named_family():
+    """deterministic lattice of small data sets over 4 columns with cardinalities 2,2,5,3"""
+    for N in range(10, 19):
+        for s1 in (1, 2, 3):
+            for s2 in (1, 2):
+                for s3 in (0, 1):
+                    yield [N, s1, s2, s3], [(i % 2, ((i // 2) + (i // 5) * s3) % 2, (i * s1 + i // 4) % 5, (i * s2 + i // 3 + (i * i) // 7) % 3) for i in range(N)]
+
+
+def _tree_named(st, key, rows):
+    """the three NAMED weight functions (chow-liu for every root, TAN for every class): the reference weights come from the
+    same sklearn functions (trusted base), the spanning-tree maximisation and the conditioning on the class are the harness's own"""
+    import pandas as pd
+    from sklearn.metrics import adjusted_mutual_info_score, mutual_info_score, normalized_mutual_info_score
+
+    from pgmpy.estimators import TreeSearch
+
+    names = ["A", "B", "C", "D"]
+    df = pd.DataFrame(rows, columns=names)
+    cols = list(zip(*rows))
+    fns = {"mutual_info": mutual_info_score, "adjusted_mutual_info": adjusted_mutual_info_score, "normalized_mutual_info": normalized_mutual_info_score}
+    st.states += 1
+    tops = {}
+    for fn, f in fns.items():
+        W = {(a, b): float(f(cols[a], cols[b])) for a, b in combinations(range(4), 2)}
+        sc = sorted(((sum(W[e] for e in t), t) for t in spanning_trees4()), reverse=True)
+        best = sc[0][0]
+        tops[fn] = sc[0][1] if sc[0][0] - sc[1][0] > 1e-9 else None
+        for root in range(4):
+            if min(abs(w) for w in W.values()) <= 1e-9:
+                # a zero weight is a missing edge of the weight graph: the contract speaks about graphs that have a spanning tree
+                st.bump("skipped-zero-weight")
+                tops[fn] = None
+                continue
+            case = {"part": "tree-named", "key": key, "site": "TreeSearch.estimate(named)", "fn": fn, "root": root}
+            st.evals += 1
+            st.transitions += 1
+            try:
+                dag = TreeSearch(df, root_node=names[root], n_jobs=1).estimate(estimator_type="chow-liu", edge_weights_fn=fn, show_progress=False)
+            except Exception as ex:
+                st.violation("TreeSearch.estimate(named)", "exception", case, repr(ex)[:300])
+                continue
+            st.compared += 1
+            E = [(names.index(a), names.index(b)) for a, b in dag.edges()]
+            bad = _tree_bad(E, 4, root, {k: 1 for k in W}, 3, set(range(4)))
+            if bad is None:
+                w = sum(W[(min(a, b), max(a, b))] for a, b in E)
+                if w < best - 1e-9:
+                    bad = f"tree weight {w} < maximum {best} under {fn}"
+            if bad:
+                st.violation("TreeSearch.estimate(named)", "not-a-rooted-max-spanning-tree", case, E, bad)
+            else:
+                st.outcome((fn, tuple(sorted(E))))
+        # TAN: weights conditioned on the class
+        for cls_ in range(4):
+            feats = [v for v in range(4) if v != cls_]
+            W3 = {}
+            degenerate = False
+            for a, b in combinations(feats, 2):
+                tot = 0.0
+                for c in sorted(set(cols[cls_])):
+                    idx = [i for i in range(len(rows)) if cols[cls_][i] == c]
+                    tot += len(idx) / len(rows) * float(f([cols[a][i] for i in idx], [cols[b][i] for i in idx]))
+                W3[(a, b)] = tot
+            sub = sorted((sum(W3[(min(a, b), max(a, b))] for a, b in t) for t in _trees_on(feats)), reverse=True)
+            if min(abs(w) for w in W3.values()) <= 1e-9:
+                st.bump("skipped-zero-weight")
+                continue
+            root = feats[0]
+            case = {"part": "tree-named", "key": key, "site": "TreeSearch.estimate(tan,named)", "fn": fn, "root": root, "class": cls_}
+            st.evals += 1
+            st.transitions += 1
+            try:
+                dag = TreeSearch(df, root_node=names[root], n_jobs=1).estimate(estimator_type="tan", class_node=names[cls_], edge_weights_fn=fn, show_progress=False)
+            except Exception as ex:
+                st.violation("TreeSearch.estimate(tan,named)", "exception", case, repr(ex)[:300])
+                continue
+            st.compared += 1
+            E = [(names.index(a), names.index(b)) for a, b in dag.edges()]
+            tree_e = [e for e in E if cls_ not in e]
+            bad = _tree_bad(tree_e, 3, root, {k: 1 for k in W3}, 2, set(feats))
+            if bad is None:
+                w = sum(W3[(min(a, b), max(a, b))] for a, b in tree_e)
+                if w < sub[0] - 1e-9:
+                    bad = f"feature tree weight {w} < maximum {sub[0]} under {fn} given the class"
+            if bad is None and {e for e in E if cls_ in e} != {(cls_, f_) for f_ in feats}:
+                bad = "class edges"
+            if bad:
+                st.violation("TreeSearch.estimate(tan,named)", "not-a-tan-structure", case, E, bad)
+    if tops["adjusted_mutual_info"] and tops["normalized_mutual_info"] and tops["adjusted_mutual_info"] != tops["normalized_mutual_info"]:
+        st.nt(("ami!=nmi", tuple(key)))
+    if tops["mutual_info"] and tops["normalized_mutual_info"] and tops["mutual_info"] != tops["normalized_mutual_info"]:
+        st.nt(("mi!=nmi", tuple(key)))
 
 
 def _tree_mi(st):
